@@ -3,6 +3,7 @@ package main
 import (
 	"errors"
 	"fmt"
+	stdhtml "html"
 	"io"
 	"sort"
 	"strings"
@@ -301,6 +302,70 @@ func firstDiff(a, b string) string {
 	return fmt.Sprintf("%q vs %q", cut(a), cut(b))
 }
 
+var probeStrings = []string{"a<b", "x&y", "&lt;", "&amp;amp;", "&#34;", "a=1&lt=2", `"q"`, "it's", `a\b`, "l1\nl2", "\ttab", "${x}", "}", "-->", "</p>", "</script>", "é中😀", "\x01", " ", "", "> <", "&", "&&", "'\"'"}
+
+func escapeProbe(r *Rng, cfg tmplCfg) string {
+	a, b := r.Pick(probeStrings), r.Pick(probeStrings)
+	ap := cfg.ap
+	src := "<p " + ap + "title=\"${s1}\" " + ap + "data-x='pre-${s2}-post' " + ap + "text=\"${s1}\">old</p><textarea " + ap + "text='[${s2}]'></textarea>" +
+		"<i " + ap + "with=\"w := ${s1}\" " + ap + "class=\"${w}\"></i><b " + ap + "range=\"_, x : xs\" " + ap + "id=\"${x}\" " + ap + "text=\"${ident(x)}\"></b>"
+	m, le := newManager(cfg, [][2]string{{"probe.html", src}})
+	if le != "" {
+		return "escape probe does not load: " + le
+	}
+	tpl, _ := m.GetTemplate("probe.html")
+	res := execOne(tpl, tmplRun{data: map[string]any{"s1": a, "s2": b, "xs": []any{a, b}}, budget: -1})
+	if res.class != "" {
+		return "escape probe failed to render: " + res.class
+	}
+	toks, err := html.NewHtmlScanner(strings.NewReader(res.out)).SetAttrPrefix(ap).GetAllTokens()
+	if err != nil {
+		return fmt.Sprintf("output of the escape probe does not scan (inserted %q, %q): %q", a, b, res.out)
+	}
+	un := func(v *string) string {
+		if v == nil {
+			return "<nil>"
+		}
+		s := *v
+		if len(s) >= 2 {
+			s = s[1 : len(s)-1]
+		}
+		return stdhtml.UnescapeString(s)
+	}
+	var tags, texts []string
+	attrs := map[string]string{}
+	for _, t := range toks {
+		if t.Kind == html.TokenKindTag && t.Tag != nil {
+			tags = append(tags, t.Tag.Name)
+			for _, at := range t.Tag.Attrs {
+				attrs[t.Tag.Name+"."+at.Name+fmt.Sprint(len(tags))] = un(at.Value)
+			}
+		} else if t.Kind == html.TokenKindText {
+			texts = append(texts, stdhtml.UnescapeString(t.Value))
+		}
+	}
+	wantTags := "p /p textarea /textarea i /i b /b b /b"
+	if strings.Join(tags, " ") != wantTags {
+		return fmt.Sprintf("inserting %q / %q changed the markup structure: tags %v, output %q", a, b, tags, res.out)
+	}
+	checks := map[string]string{"p.title1": a, "p.data-x1": "pre-" + b + "-post", "i.class5": a, "b.id7": a, "b.id9": b}
+	for k, want := range checks {
+		if attrs[k] != want {
+			return fmt.Sprintf("attribute %s reads back as %q, inserted %q (output %q)", k, attrs[k], want, res.out)
+		}
+	}
+	var wantTexts []string
+	for _, s := range []string{a, "[" + b + "]", a, b} {
+		if s != "" {
+			wantTexts = append(wantTexts, s)
+		}
+	}
+	if strings.Join(texts, "\x00") != strings.Join(wantTexts, "\x00") {
+		return fmt.Sprintf("texts read back as %q, inserted %q (output %q)", texts, wantTexts, res.out)
+	}
+	return ""
+}
+
 func copyData(d map[string]any) map[string]any {
 	c := map[string]any{}
 	for k, v := range d {
@@ -417,6 +482,11 @@ func genTmplCase(r *Rng, out *outFiles) {
 				}
 			}
 		}
+	}
+	// C02 probe: an HTML consumer reads back exactly the inserted strings (text and dynamic attributes,
+	// pure ${} values and literal/${} mixtures, ordinary and raw-text hosts)
+	if c02 == "" {
+		c02 = escapeProbe(r, cfg)
 	}
 	out.count("soup")
 	out.put(renderCase(cfg, ts.Files, name, runs), line, verdict("C16", c16), verdict("C05", c05), verdict("C12", c12), verdict("C02", c02), verdict("C08", c08), verdict("C15", c15))
